@@ -16,7 +16,7 @@ import (
 type ScriptConn struct {
 	Rec     *Recorder
 	Slen    int    // the client sends Stream[:Slen] and then ends
-	EndKind string // "eof" | "silent"
+	EndKind string // "eof" | "silent" | "hold" (the client keeps the connection open: a read past the end blocks until Close / Release)
 	Pulls   []int  // sizes of the successive prefetch-issued socket reads; afterwards: as much as asked
 	Start   time.Time
 	Unit    time.Duration // deadlines are Start + list*Unit
@@ -28,6 +28,19 @@ type ScriptConn struct {
 	Written  []byte
 	Local    net.Addr
 	Remote   net.Addr
+	relOnce  sync.Once
+	released chan struct{}
+}
+
+// Release ends a "hold" client: blocked and later reads return EOF.
+func (c *ScriptConn) Release() {
+	c.mu.Lock()
+	if c.released == nil {
+		c.released = make(chan struct{})
+	}
+	ch := c.released
+	c.mu.Unlock()
+	c.relOnce.Do(func() { close(ch) })
 }
 
 func (c *ScriptConn) Read(p []byte) (int, error) {
@@ -59,6 +72,15 @@ func (c *ScriptConn) Read(p []byte) (int, error) {
 		return n, nil
 	}
 	// nothing more will come
+	if c.EndKind == "hold" {
+		if c.released == nil {
+			c.released = make(chan struct{})
+		}
+		ch := c.released
+		c.mu.Unlock()
+		<-ch
+		c.mu.Lock()
+	}
 	kind := "eof"
 	var err error = io.EOF
 	if c.EndKind == "silent" {
@@ -88,6 +110,9 @@ func (c *ScriptConn) Close() error {
 	c.mu.Lock()
 	c.closed = true
 	c.mu.Unlock()
+	if c.EndKind == "hold" {
+		c.Release()
+	}
 	c.Rec.AddAux(Ev{"e": "Closed"})
 	if c.Rec.Sink != nil {
 		c.Rec.Sink.Add(Ev{"e": "ConnClosed", "c": c.Rec.ID})
